@@ -1364,7 +1364,7 @@ def cbtf0_cases(rng, n):
     cases = []
     for i in range(n):
         nb = int(rng.choice([1, 3, 6, 12]))
-        nq = int(rng.integers(1, 8))
+        nq = 0 if i % 5 == 4 else int(rng.integers(1, 8))  # (no modal DOF: the branch repaired by 1c371b1 / ed802cc)
         nt = nb + nq
         A = rng.standard_normal((nt, nt))
         M = A @ A.T / nt + np.eye(nt)
@@ -1380,8 +1380,12 @@ def cbtf0_cases(rng, n):
         D = rng.standard_normal((nt, nt))
         Bm = D @ D.T * 0.05
         bset = pos_b.copy()
-        if rng.random() < 0.4:
+        if rng.random() < 0.4 or (nq == 0 and nb > 1):
             bset = rng.permutation(bset)
+            if nq == 0 and nb > 1 and np.array_equal(bset, pos_b):
+                bset = bset[::-1].copy()
+        if nq == 0:
+            layout = "noq"
         a = rng.standard_normal(nb)
         cases.append(dict(M=M, B=Bm, K=K, bset=[int(x) for x in bset], a=a, layout=layout,
                           freq=[0.0] if rng.random() < 0.5 else [0.0, float(rng.uniform(0.5, 5))]))
@@ -1415,10 +1419,11 @@ def oracle_cbtf0(c):
     imag = max(np.abs(np.imag(x)).max() for x in (tf.frc[:, 0], tf.d[:, 0], tf.a[:, 0]))
     ok = (_close(np.real(tf.frc[:, 0]), frc, 1e-9)[0] and _close(np.real(tf.d[qset, 0]), dq, 1e-8)[0]
           and np.abs(tf.d[bset, 0]).max() == 0 and imag <= 1e-12 * max(np.abs(frc).max(), 1e-300)
-          and np.abs(tf.v[:, 0]).max() == 0 and np.abs(tf.a[qset, 0]).max() <= 1e-12 * max(np.abs(a).max(), 1e-300)
-          and _close(np.real(tf.a[bset, 0]), a, 1e-14)[0])
+          and np.abs(tf.v[:, 0]).max() == 0 and np.abs(tf.a[qset, 0]).max(initial=0.0) <= 1e-12 * max(np.abs(a).max(), 1e-300)
+          and tf.a.shape[0] == M.shape[0] and _close(np.real(tf.a[bset, 0]), a, 1e-14)[0])
     if not ok:
-        _fail(out, "cbtf-static-limit-b" + c["layout"], "at 0 Hz the force is not Mbb a with the statically deflected modal DOF "
+        fam0 = "cbtf-empty-qset-responses-in-bset-order" if (len(qset) == 0 and list(bset) != sorted(bset)) else "cbtf-static-limit-b" + c["layout"]
+        _fail(out, fam0, "at 0 Hz the force is not Mbb a with the statically deflected modal DOF "
               "(d_q = -Kqq^-1 Mqb a, zero velocity, zero boundary displacement)", inp,
               {"frc": np.real(tf.frc[:, 0]).tolist(), "dq": np.real(tf.d[qset, 0]).tolist()}, {"frc": frc.tolist(), "dq": dq.tolist()})
     return out
@@ -2005,6 +2010,9 @@ def correspondence(ctx):
         cmp("cbtf-static-dq", "modal displacement at 0 Hz", inp, np.real(tf.d[qset, 0]), dq)
         if np.abs(tf.d[bset, 0]).max() != 0 or np.abs(tf.v[:, 0]).max() != 0 or np.abs(np.imag(tf.frc[:, 0])).max() > 1e-12 * np.abs(frc).max():
             ctx.disagree("cbtf-static-zero", inp, "non-zero boundary displacement / velocity / imaginary force at 0 Hz", "zero")
+        # responses are in MODEL order (also without modal DOF, fix ed802cc): the b-set rows of `a` are the enforced input
+        if tf.a.shape[0] != nt or not np.array_equal(np.real(tf.a[bset, 0]), np.asarray(c["a"], float)):
+            ctx.disagree("cbtf-static-model-order", inp, {"a[bset]": np.real(tf.a[:, 0]).tolist()}, {"a": np.asarray(c["a"]).tolist()})
         ctx.case(("cbtf0", rep[k - 1][:60]), branch="cbtf0:b" + c["layout"] + ("-permuted" if c["bset"] != sorted(c["bset"]) else ""))
     if k != len(rep):
         raise Infra("C06: %d replies consumed of %d" % (k, len(rep)))
@@ -2026,7 +2034,7 @@ def correspondence(ctx):
         "rbdisp:exact", "rbdisp:small", "rbdisp:large", "rbdisp:warned",
         "netdrm:plain", "netdrm:conv", "netdrm:bsubset", "netdrm:sccoord",
         "rbmult:first", "rbmult:last", "rbmult:vector", "rbmult:full",
-        "cbtf0:bfirst", "cbtf0:blast", "cbtf0:bmixed",
+        "cbtf0:bfirst", "cbtf0:blast", "cbtf0:bmixed", "cbtf0:bnoq-permuted",
     ])
 
 
@@ -2282,8 +2290,9 @@ def oracle_cbtf(seed):
     permuted = not np.array_equal(bset, np.sort(bset))
     fam = "cbtf-%s-damping-b%s%s" % (style, layout, "-permuted" if permuted else "")
     if nq == 0 and permuted:
-        # F29 (fixed by 1c371b1): without modal DOF the results are in b-set order
-        fam = "cbtf-empty-qset-unsorted-bset"
+        # F29 / F59 (fixed by 1c371b1, ed802cc): without modal DOF the responses are in MODEL order like everywhere else
+        # (only `frc` is in b-set order); the regression rule tf.a[bset] == a has its own stable family
+        fam = "cbtf-empty-qset-responses-in-bset-order"
     save = {} if rng.random() < 0.5 else None
     with warnings.catch_warnings():
         warnings.simplefilter("ignore")
@@ -2303,11 +2312,12 @@ def oracle_cbtf(seed):
     W = 2 * math.pi * freq
     worst = 0.0
     qset = np.setdiff1d(np.arange(n), bset)
-    if nq == 0:
-        # convention of the repaired code: with an empty q-set a, v, d, frc are all in b-set order
-        bb = np.ix_(bset, bset)
-        Mi, Bi, Ki = Mi[bb], Bi[bb], Ki[bb]
-        bset = np.arange(nb)
+    # (the equations of motion are checked in model order for every nq >= 0 and any b-set order: d, v, a are B+Q-set sized
+    # with the b-set part at rows `bset`, frc is in b-set order)
+    if tf.a.shape[0] != n or tf.d.shape[0] != n or tf.v.shape[0] != n or tf.frc.shape[0] != nb:
+        _fail(out, fam, "cbtf: d, v, a must have one row per model DOF and frc one row per b-set DOF", inp,
+              [list(tf.a.shape), list(tf.frc.shape)], [[n, len(freq)], [nb, len(freq)]])
+        return out
     for j, w in enumerate(W):
         d, v, acc = tf.d[:, j], tf.v[:, j], tf.a[:, j]
         rhs = np.zeros(n, dtype=complex)
